@@ -19,7 +19,7 @@ Token level, programs of any size (the models are `QV.Shared.Print`, `QV.Shared.
 * `C04_debug_total`: the debug serializer is a total function (by construction of the model: `write(f, true)`
   never takes an error branch) and AGREES with the strict serializer whenever that succeeds.
 
-## Proved for the kinds of `apiKind` (31 kinds) — `C04_roundtrip_api`, see below
+## Proved for the kinds of `apiKind` (33 kinds) — `C04_roundtrip_api`, see below
 
 ## Proved for the kinds of `plainKind` (23 kinds without expressions)
 
@@ -91,17 +91,21 @@ theorem C04_roundtrip_partial (F : NumFmt) (is : List Instruction)
     ∃ ts, printProgramTokens F (build is).listing = .ok ts ∧
       ∃ is', parseProgram ts = .ok is' [] ∧ build is' = build is ∧
         printProgramTokens F (build is').listing = .ok ts := by
-  apply C02_roundtrip_partial F is
+  apply C02_roundtrip_exact F is
   · intro i hi; exact parsedInstr_of_wellFormed i (hw i hi) (hp i hi) (hk i hi)
   · intro i hi; exact plainKind_provedKind (hk i hi)
   · intro i hi
     have := hk i hi
     cases i <;> simp_all [plainKind, numTokInstr]
+  · intro i hi
+    have := hk i hi
+    cases i <;> simp_all [plainKind, canonInstr]
 
 /-- **C04, proved part with expressions.**  Well-formed, placeholder-free instructions of the kinds `apiKind`
 (the plain kinds, gate applications with arbitrary expression parameters and modifiers, SET-FREQUENCY, SET-PHASE,
 SET-SCALE, SHIFT-FREQUENCY, SHIFT-PHASE, DELAY with any duration with and without frame names, RAW-CAPTURE into
-a region not named `i`), NumTok hypothesis on their literals: the program serializes, and the
+a region not named `i`, CAPTURE and PULSE: their waveform parameters come back sorted by key, values in normal
+form — `normInvocation`), NumTok hypothesis on their literals: the program serializes, and the
 tokens parse back to the listing in which every expression `e` is replaced by its normal form `norm e`
 (`normInstr`) — which builds the program whose containers are the images of the original containers.
 `norm e` has the same value as `e` under every assignment (`C04_norm_value`): the reparsed program is equal to
@@ -133,6 +137,20 @@ theorem C04_roundtrip_api (F : NumFmt) (is : List Instruction)
         (length_toks_le_programRaw F _ i hi))
   · rw [hbuild, listing_mapProg]
 
+/-- **C04 at TEXT level, for the canonical layout**: under the hypotheses of `C04_roundtrip_api`, if the printed
+tokens are spellable (`QV.Render.allTokOk`, decidable) and the float spelling satisfies the NumTok hypothesis
+`FmtOk`, the text `render st ts` (bP1's canonical layout of the printed tokens) lexes — with the character-level
+lexer model — to exactly the printed tokens, which parse back to the normal-form listing. -/
+theorem C04_roundtrip_api_text (st : QV.Render.Style) (F : NumFmt) (is : List Instruction)
+    (hw : ∀ i ∈ is, wellFormed i = true) (hp : ∀ i ∈ is, hasPlaceholder i = false)
+    (hk : ∀ i ∈ is, apiKind i = true) (hn : ∀ i ∈ is, numTokInstr F i = true) :
+    ∃ ts, printProgramTokens F (build is).listing = .ok ts ∧
+      (QV.Render.allTokOk ts = true → (∀ b, Token.float b ∈ ts → QV.Render.FmtOk st.fmt b) →
+        QV.Lex.lex (QV.Render.render st ts) = some ts ∧
+        parseProgram ts = .ok ((build is).listing.map normInstr) []) := by
+  obtain ⟨ts, h1, h2, _⟩ := C04_roundtrip_api F is hw hp hk hn
+  exact ⟨ts, h1, fun hall hfl => ⟨QV.Render.lex_render st ts hall hfl, h2⟩⟩
+
 /-- the normal form the parser returns has the same value as the original expression, for every scalar type
 satisfying the literal laws and every assignment (proved by the C03 builder: `QV.ExprRoundTrip.eval_norm`) -/
 theorem C04_norm_value {K : Type} [Scalar K] (den : CBits → K) (L : QV.ExprRoundTrip.LitLaws K den)
@@ -149,7 +167,9 @@ example : ∃ ts, printProgramTokens stdFmt (build
        .delay ⟨.address ⟨"theta", 0⟩, [], [.fixed 0, .fixed 1]⟩,
        .delay ⟨.call .sin (.var "t"), [], [.fixed 0]⟩,
        .delay ⟨.number ⟨0x3FF0000000000000, 0xC000000000000000⟩, ["a\"b"], []⟩,
-       .rawCapture ⟨false, ⟨"ro", [.fixed 0]⟩, .number ⟨0x4000000000000000, 0⟩, ⟨"iq", 0⟩⟩]).listing = .ok ts :=
+       .rawCapture ⟨false, ⟨"ro", [.fixed 0]⟩, .number ⟨0x4000000000000000, 0⟩, ⟨"iq", 0⟩⟩,
+       .pulse ⟨false, ⟨"rf", [.fixed 0]⟩, ⟨"lib/wf", [("b", .number ⟨0xBFF0000000000000, 0⟩), ("a", .pi)]⟩⟩]).listing
+      = .ok ts :=
   let ⟨ts, h, _⟩ := C04_roundtrip_api stdFmt _ (by decide) (by decide) (by decide) (by decide)
   ⟨ts, h⟩
 
